@@ -65,6 +65,21 @@ CHECKS['C20'] = dict(
    technique='TLA+/PlusCal spec LazyInit.tla model-checked by TLC against AtomicCache (refinement, all interleavings; publish-then-fill is the negative control); schedules <<A, pre-emption line i, B>> executed on the real library in forked pristine processes (sys.settrace), LazyTrace validates every recorded schedule against the atomic cache (each thread == its solo run) and reports partial tables as model drift',
    level=('model_checking', 'LazyInit.tla (lazily filled class-level tables with nested group resolution, 2-3 threads, every interleaving): build-then-publish refines AtomicCache (every call returns the complete table, a published slot never changes); publish-then-fill is refuted by TLC. On the code: thread A is pre-empted once at an executed library line of its first use of its classes and thread B runs to completion in the gap; quick = every 2nd line inside lazily-initialising frames + every 40th other line of 5 workload pairs (about 9,000 schedules), thorough = every executed line of 10 pairs; TLC validates that both threads observe exactly what they observe alone.', 'DESIGN.md 3.7, 6 C20'),
    note='trusted: CPython GIL semantics, sys.settrace line events as pre-emption points, fork for pristine process state, TLC. One pre-emption and two threads on the code; all interleavings only on the model.', thorough=True)
+DOC_NOTE = ('trusted: xml.etree as the standard XML parser, the schema-only document builder harness/schemadoc.py (valid values / words from spec/schema.json), '
+            'the infoset relations of spec/Document.tla (Equiv, NoLoss, DecimalEq), TLC. Documents are finite samples: one word per automaton edge, all-attribute and white-space variants, single-edit mutants.')
+
+
+def doc(pid, what, sec):
+    return dict(
+        technique='TLA+ spec (Document.tla infoset relations over Schema types) + TLC: DocumentGen supplies edge-covering child words, a schema-only builder makes documents, the harness round-trips / parses / deep-copies on the real library, DocumentTrace judges every recorded scenario (trace validation); ' + what,
+        level=('model_checking', 'For all 441 element classes: API-built trees (minimal, all attributes as ints and as floats, float / fractional text, exterior blanks, markup characters) are serialised, written, parsed and re-serialised twice; schema-generated documents (one per follow edge of every content model, bare and wrapped into a score-partwise, all attributes in XML form, white-space variants) and their single-edit mutants plus the repository\'s MusicXML files are parsed and re-serialised; trees with attributes set by keyword / dot / overwritten / removed under both xsd_check values are deep-copied and then each tree is mutated. '
+               'TLC validates each recorded scenario against the relations of Document.tla, decided on code points and schema types in TLA+.', sec),
+        note=DOC_NOTE, thorough=True)
+
+
+CHECKS['C08'] = doc('C08', 'clauses C08_reparse, C08_trip (Equiv with decimal re-spelling only at non-integer decimal positions), C08_stable (second trip byte-identical)', 'DESIGN.md 3.5, 6 C08')
+CHECKS['C09'] = doc('C09', 'clauses C09_accept, C09_trip (valid input), C09_noloss (any input: raise or lose nothing)', 'DESIGN.md 3.5, 6 C09')
+CHECKS['C14'] = doc('C14', 'clauses C14_copies, C14_faithful (same text, same xsd_check), C14_unchanged (original untouched), C14_frame (mutating one tree never changes the other)', 'DESIGN.md 3.5, 6 C14')
 NA_REASON = 'check not built yet (construction in progress; DESIGN.md section 7 gives the order)'
 
 
